@@ -346,25 +346,28 @@ where
     type Item = Step;
 
     fn next(&mut self) -> Option<Self::Item> {
-        let (Reverse(w_prev), u) = self.heap.pop()?;
-        let dist_ptr = self.dist.as_mut_ptr();
+        // A popped entry whose key is no longer the vertex's best distance is
+        // superseded: skip it and keep going; only an empty heap ends the
+        // iteration.
+        loop {
+            let (Reverse(w_prev), u) = self.heap.pop()?;
+            let dist_ptr = self.dist.as_mut_ptr();
 
-        for (v, w) in self.digraph.out_neighbors_weighted(u) {
-            let w_next = w_prev + w;
-            let dist_v = unsafe { *dist_ptr.add(v) };
+            for (v, w) in self.digraph.out_neighbors_weighted(u) {
+                let w_next = w_prev + w;
+                let dist_v = unsafe { *dist_ptr.add(v) };
 
-            if w_next < dist_v {
-                unsafe { *dist_ptr.add(v) = w_next };
+                if w_next < dist_v {
+                    unsafe { *dist_ptr.add(v) = w_next };
 
-                self.heap.push((Reverse(w_next), v));
+                    self.heap.push((Reverse(w_next), v));
+                }
+            }
+
+            if w_prev == unsafe { *dist_ptr.add(u) } {
+                return Some((u, w_prev));
             }
         }
-
-        if w_prev == unsafe { *dist_ptr.add(u) } {
-            return Some((u, w_prev));
-        }
-
-        None
     }
 }
 
